@@ -6,17 +6,27 @@ ID = "C04"
 META = dict(
     LEVEL="exploration",
     RULE=("forest-walk generated tree sequences (unary nodes, internal samples, dead branches, gaps, metadata on "
-          "every table, individuals, populations, known/unknown mutation times) plus small msprime simulations; "
-          "per input 12-16 simplify calls through TreeSequence.simplify and TableCollection.simplify with sample "
-          "lists drawn from {None, all flagged shuffled, flagged subset, arbitrary nodes, single, empty, all nodes} "
-          "crossed with option sets drawn from all 384 consistent combinations (thorough: full 384 sweep on every "
-          "20th input). Each call is compared per elementary interval with the induced genealogy computed from the "
-          "input forest, plus node rows, id maps, sites/mutations, genotypes, reference tables, validity, "
-          "provenance and row-level idempotence. A case is distinct by the sha1 of its input rows and "
-          "non-trivial when the input has at least one edge."),
+          "every table, individuals with parents listed before OR after them, populations, known/unknown mutation "
+          "times, metadata schemas / top-level metadata / reference sequence, > 64 KiB ragged entries) plus msprime "
+          "simulations; every 20th case is a forced large instance (star parents with 62..257 children around the "
+          "segment-queue thresholds, 255..700 breakpoints on a handful of nodes, unary chains of depth 200..1000, "
+          "60..140-node walks, msprime with 30..140 sample nodes). Per input 12-16 simplify calls (4-8 on large "
+          "inputs, fewer on inputs with > 25 trees) through TreeSequence.simplify (fresh / file-loaded) and "
+          "TableCollection.simplify (fresh / indexed / copy / pickle / file-loaded / low-level _tskit method / the "
+          "same object a second time) with sample lists drawn from {None, all flagged shuffled, flagged subset, "
+          "arbitrary nodes, single, empty, all nodes} in the argument forms {list, tuple, int32, int64, uint16, "
+          "strided array, list of numpy scalars, explicit flagged array for None, positional, keyword}, crossed "
+          "with option sets drawn from all 384 consistent combinations, each option spelled out, omitted or None "
+          "when it has its documented default, record_provenance True / False / omitted, filter_sites also through "
+          "its deprecated alias (thorough: full 384 sweep on every 20th input). Each call is compared per "
+          "elementary interval with the induced genealogy computed from the input forest, plus node rows, id maps, "
+          "individual parents, sites/mutations, genotypes, reference tables, validity, the TREES of the resulting "
+          "tree sequence against the result rows, top-level data, provenance record and row-level idempotence. A "
+          "case is distinct by the sha1 of its input rows and non-trivial when the input has at least one edge."),
     REQUIRED=["simplify-calls", "genealogy", "genotypes", "node-rows", "node-map:samples-first", "node-map:identity",
               "sites-filter", "mutations", "refs:populations", "refs:individuals", "idempotence", "validity",
-              "errors", "api:ts", "api:tables"],
+              "errors", "api:ts", "api:tables", "trees-vs-rows", "individual-parents", "provenance-record",
+              "idempotence:same-object", "big-cases", "empty-collection", "edges-squashed"],
     ASSUMPTIONS=ASSUME_COMMON + [
         "inputs are valid tree sequences with correct mutation parents (generator invariant)",
         "which mutations survive is read off the docstring's 'retain only the history of the samples': a mutation "
